@@ -5,6 +5,7 @@
 -/
 import PLV.Model.Proto
 import PLV.Judge
+import PLV.Model.Conc
 
 open PLV PLV.Proto
 
@@ -14,6 +15,12 @@ structure DState where
   q   : Q := {}
   /-- C19: the abstract FIFO run alongside, its answer to the last queue op, and whether a push
       has re-used an id that still had a ticket since the last resynchronisation -/
+  -- E-conc: the threads' programs; what the last run started from; lookup marks per step
+  cprog : List (List Conc.COp) := []
+  lastProg : List (List Conc.COp) := []
+  lastPre : List Order := []
+  lastG : Nat := 0
+  lastMarks : List (Option (Bool × Id)) := []
   -- C11: a level restored from a snapshot of `lvl`, fed the same continuation
   fork : Option (Level × Nat) := none
   lastForkMakers : String := ""
@@ -35,7 +42,7 @@ def parseUpdate : List String → Option Update
   | ["replace", id, p, n, sd] => do some (.replace (← parseId id) (← p.toNat?) (← n.toNat?) (← parseSide sd))
   | _ => none
 
-/-- the level's orders in the listing order the implementation used (ids); admissible only if it
+/- the level's orders in the listing order the implementation used (ids); admissible only if it
     names every resting order exactly once and is sorted by timestamp -/
 def arrange (l : Level) (ids : String) : Option (List Order) :=
   match parseList parseId ids with
@@ -47,6 +54,70 @@ def arrange (l : Level) (ids : String) : Option (List Order) :=
       let sorted := (os.zip (os.drop 1)).all (fun (p : Order × Order) => p.1.ts ≤ p.2.ts)
       let once := idl.all (fun i => (idl.filter (· == i)).length == 1)
       if sorted && once && os.length == l.map.length then some os else none
+
+def parseCOp (s : String) : Option Conc.COp :=
+  match s.splitOn "~" with
+  | ["add", o] => (parseOrder o).map Conc.COp.add
+  | ["match", q, t] => do some (.matchQ (← q.toNat?) (← parseId t))
+  | ["cancel", id] => (parseId id).map Conc.COp.cancel
+  | ["amend", id, n] => do some (.amend (← parseId id) (← n.toNat?))
+  | ["read", "vis"] => some .readVis
+  | ["read", "hid"] => some .readHid
+  | ["read", "cnt"] => some .readCnt
+  | ["read", "list"] => some .readList
+  | ["next"] => some .next
+  | _ => none
+
+/- runs the small-step model under the given schedule, collecting events and the aggregates a
+    reader would see after every step -/
+/- the pc a thread is about to execute (resolving `idle` to the start of its next op) -/
+def nextPc (t : Conc.Thread) : Conc.Pc :=
+  match t.pc, t.todo with
+  | .idle, op :: _ => Conc.start op
+  | pc, _ => pc
+
+/- for the C13 judge: is this step the lookup of a cancel / amend (`false`, id), or a cancel's
+    successful take (`true`, id)? -/
+def markOf (c : Conc.Cfg) (i : Nat) : Option (Bool × Id) :=
+  match c.ts[i]? with
+  | none => none
+  | some t =>
+    match nextPc t with
+    | .can0 id => if (c.sh.map.find id).isSome then some (true, id) else some (false, id)
+    | .am0 id _ => if (c.sh.map.find id).isSome then none else some (false, id)
+    | .am1 id _ => if (c.sh.map.find id).isSome then none else some (false, id)
+    | _ => none
+
+def concRun (c : Conc.Cfg) (sched : List Nat) : Conc.Cfg × List String × List String × List (Option (Bool × Id)) :=
+  let obs (c : Conc.Cfg) := toString c.sh.vis ++ "/" ++ toString c.sh.hid ++ "/" ++ toString c.sh.cnt
+  sched.foldl (fun (acc : Conc.Cfg × List String × List String × List (Option (Bool × Id))) i =>
+    let (c', e) := Conc.step acc.1 i
+    (c', acc.2.1 ++ [e.getD ("t" ++ toString i ++ ":no-step")], acc.2.2.1 ++ [obs c'], acc.2.2.2 ++ [markOf acc.1 i]))
+    (c, [], [obs c], [])
+
+def parseEv (s : String) : Option Ev :=
+  match s.splitOn ":" with
+  | t :: oo :: rest =>
+    let parts := oo.splitOn "."
+    match (t.drop 1).toString.toNat?, parts.getLast? with
+    | some tn, some op => some ⟨tn, joinWith "." parts.dropLast, op, joinWith ":" rest⟩
+    | _, _ => none
+  | _ => none
+
+def parseTrace (s : String) : Option (List Ev) :=
+  if s.isEmpty then some [] else (s.splitOn ";").mapM parseEv
+
+/- per-thread return strings: `t0:r&r#t1:r` -/
+def parseRets (s : String) : List (List String) :=
+  (s.splitOn "#").map (fun t => match t.splitOn ":" with
+    | _ :: rest => let body := joinWith ":" rest; if body.isEmpty then [] else body.splitOn "&"
+    | [] => [])
+
+/- transactions of a match result rendered with `~` separators -/
+def txsOfRet (r : String) : List Tx :=
+  match (r.splitOn "~").head? with
+  | some f => if f.startsWith "txs=" then (parseList parseTx (f.drop 4).toString).getD [] else []
+  | none => []
 
 def showMA (r : MatchOut) : String :=
   "c=" ++ toString r.consumed ++ " u=" ++ showOptOrder r.updated ++ " hr=" ++ toString r.hiddenRed ++
@@ -176,6 +247,93 @@ def step (s : DState) (line : String) : DState × String :=
   | ["q.tovec"] =>
     ({ s with specOut := "q.tovec " ++ showList showOrder (canonSort s.fifo) },
      "q.tovec " ++ showList showOrder (canonSort s.q.toVec))
+  | ["conc.thread", k, ops] =>
+    match k.toNat?, (ops.splitOn ";").mapM parseCOp with
+    | some k, some ops =>
+      let prog := if k < s.cprog.length then s.cprog.set k ops else s.cprog ++ [ops]
+      ({ s with cprog := prog }, "conc.thread")
+    | _, _ => bad s line
+  | "conc.run" :: rest =>
+    let schedStr := joinWith " " rest
+    match (if schedStr.isEmpty then some [] else (schedStr.splitOn ",").mapM String.toNat?) with
+    | some sched =>
+      let sh : Conc.Shared := { price := s.lvl.price, vis := s.lvl.vis, hid := s.lvl.hid, cnt := s.lvl.cnt,
+                                map := s.lvl.map, tickets := s.lvl.tickets, stats := s.lvl.stats, g := s.g }
+      let c0 : Conc.Cfg := { sh := sh, ts := s.cprog.map (fun ops => { todo := ops }) }
+      let (c, evs, obs, marks) := concRun c0 sched
+      let rets := joinWith "#" ((List.range c.ts.length).zip c.ts |>.map (fun (p : Nat × Conc.Thread) =>
+        "t" ++ toString p.1 ++ ":" ++ joinWith "&" p.2.rets))
+      let lvl' : Level := { price := c.sh.price, vis := c.sh.vis, hid := c.sh.hid, cnt := c.sh.cnt, map := c.sh.map,
+                            tickets := c.sh.tickets, stats := c.sh.stats }
+      ({ s with lvl := lvl', g := c.sh.g, cprog := [], lastProg := s.cprog, lastPre := canonSort s.lvl.map, lastG := s.g,
+                lastMarks := marks },
+       "conc.run sched=" ++ schedStr ++ " trace=" ++ joinWith ";" evs ++ " rets=" ++ rets ++ " obs=" ++
+         joinWith "," obs ++ " done=" ++ showBool (Conc.allDone c))
+    | none => bad s line
+  | ["judge.C03", _pre, post, rets, v, h, c] =>
+    match parseList parseOrder post, v.toNat?, h.toNat?, c.toNat? with
+    | some post, some v, some h, some c =>
+      let rets := parseRets rets
+      let ops := s.lastProg
+      let pairs : List (Conc.COp × String) := (ops.zip rets).flatMap (fun (p : List Conc.COp × List String) => p.1.zip p.2)
+      let supplied : List Order := s.lastPre ++ pairs.filterMap (fun p => match p.1 with | .add o => some o | _ => none)
+      let amended : List Id := pairs.filterMap (fun p => match p.1 with | .amend id _ => some id | _ => none)
+      let txs : List Tx := pairs.flatMap (fun p => match p.1 with | .matchQ _ _ => txsOfRet p.2 | _ => [])
+      let returned (id : Id) : Nat := (pairs.filterMap (fun p => match p.1 with
+        | .cancel i => if i == id && p.2.startsWith "ok=" then (parseOptOrder (p.2.drop 3).toString).join.map (fun o => o.vis + o.hid) else none
+        | _ => none)).foldl (· + ·) 0
+      let cancels (id : Id) : Nat := (pairs.filter (fun p => match p.1 with
+        | .cancel i => i == id && p.2.startsWith "ok=" && p.2 != "ok=-" | _ => false)).length
+      let allIds := ((supplied.map (·.id)) ++ txs.map (·.maker) ++ post.map (·.id)).eraseDups
+      let okId (id : Id) : Bool :=
+        amended.contains id ||
+          (C03.idOk (lookup id supplied) (fillsOf id txs) (returned id) (restTot id post) && decide (cancels id ≤ 1))
+      let bad := allIds.filter (fun id => !(okId id))
+      (s, if !(C01.ok v h c post) then "J C03 bad aggregates-differ-from-resting-orders-at-quiescence"
+          else if bad.isEmpty then "J C03 ok" else "J C03 bad conservation:" ++ joinWith "," (bad.map showId))
+    | _, _, _, _ => bad s line
+  | ["judge.C08", tr] =>
+    match parseTrace tr with
+    | some evs => (s, if C08.scan (s.lastPre.map (fun o => showId o.id)) evs then "J C08 ok" else "J C08 bad hand-out-discipline")
+    | none => bad s line
+  | ["judge.C12", obs] =>
+    let ops := s.lastProg.flatten
+    let adds := ops.filterMap (fun o => match o with | .add o => some o | _ => none)
+    let amendSum := (ops.filterMap (fun o => match o with | .amend _ n => some n | _ => none)).foldl (· + ·) 0
+    let all := s.lastPre ++ adds
+    let maxTotal := sumVis all + sumHid all + amendSum
+    let maxHid := sumHid all
+    let maxCnt := all.length
+    let parsed := (obs.splitOn ",").mapM (fun o => match o.splitOn "/" with
+      | [a, b, c] => do some ((← a.toNat?), (← b.toNat?), (← c.toNat?))
+      | _ => none)
+    match parsed with
+    | some l => (s, if C12.ok maxTotal maxHid maxCnt l then "J C12 ok" else "J C12 bad aggregate-out-of-range")
+    | none => bad s line
+  | ["judge.C13", tr, _rets] =>
+    match parseTrace tr with
+    | some evs =>
+      if evs.length != s.lastMarks.length then (s, "J C13 bad trace-length-differs-from-model")
+      else
+        let idx := (List.range evs.length).zip (evs.zip s.lastMarks)
+        let untruthful := idx.filter (fun (p : Nat × Ev × Option (Bool × Id)) => match p.2.2 with
+          | some (false, id) => C13.inFlight evs p.1 p.2.1.t (showId id)
+          | _ => false)
+        let notFinal := idx.filter (fun (p : Nat × Ev × Option (Bool × Id)) => match p.2.2 with
+          | some (true, id) => !(C13.finalAfter evs p.1 (showId id))
+          | _ => false)
+        let wrongNone := idx.filter (fun (p : Nat × Ev × Option (Bool × Id)) => match p.2.2 with
+          | some (false, _) => p.2.1.res != "none"
+          | some (true, _) => p.2.1.res != "found"
+          | none => false)
+        if !notFinal.isEmpty || !wrongNone.isEmpty then (s, "J C13 bad acknowledgement-contradicted")
+        else if !untruthful.isEmpty then (s, "J C13 known in-flight")
+        else (s, "J C13 ok")
+    | none => bad s line
+  | ["judge.C14", tr, _rets] =>
+    match parseTrace tr with
+    | some evs => (s, if C14.ok s.lastG evs then "J C14 ok" else "J C14 bad counter-values-not-a-fresh-range")
+    | none => bad s line
   | ["rebuild", kind, l] =>
     match arrange s.lvl l with
     | some os =>
